@@ -51,6 +51,11 @@ func BuildRootGraph(p *Program) *RootGraph {
 			}
 			if sc := c.StaticCallee(); sc != nil {
 				add(f, sc)
+			} else if !c.IsInvoke() {
+				// a call through a function value taken from a package-level function table
+				for _, t := range FuncTableTargets(c.Value) {
+					add(f, t)
+				}
 			} else if c.IsInvoke() && node != nil {
 				for _, e := range node.Out {
 					if e.Site == ci && e.Callee != nil {
@@ -155,4 +160,99 @@ func (g *RootGraph) ReachableFrom(root *ssa.Function) map[*ssa.Function]bool {
 	}
 	walk(root)
 	return seen
+}
+
+// FuncTableTargets: if v is an element of a package-level slice/array/map of
+// functions (ranged over or indexed), the functions stored in that table by its
+// package's init, in index order.  Nil if v is not provably such an element.
+func FuncTableTargets(v ssa.Value) []*ssa.Function {
+	g := tableGlobalOf(v, 6)
+	if g == nil || g.Pkg == nil {
+		return nil
+	}
+	return FuncTable(g)
+}
+
+func tableGlobalOf(v ssa.Value, depth int) *ssa.Global {
+	if depth == 0 || v == nil {
+		return nil
+	}
+	switch x := v.(type) {
+	case *ssa.Global:
+		return x
+	case *ssa.UnOp:
+		return tableGlobalOf(x.X, depth-1)
+	case *ssa.IndexAddr:
+		return tableGlobalOf(x.X, depth-1)
+	case *ssa.Index:
+		return tableGlobalOf(x.X, depth-1)
+	case *ssa.Lookup:
+		return tableGlobalOf(x.X, depth-1)
+	case *ssa.Extract:
+		return tableGlobalOf(x.Tuple, depth-1)
+	case *ssa.Next:
+		return tableGlobalOf(x.Iter, depth-1)
+	case *ssa.Range:
+		return tableGlobalOf(x.X, depth-1)
+	case *ssa.ChangeType:
+		return tableGlobalOf(x.X, depth-1)
+	case *ssa.Phi:
+		for _, e := range x.Edges {
+			if g := tableGlobalOf(e, depth-1); g != nil {
+				return g
+			}
+		}
+	}
+	return nil
+}
+
+// FuncTable returns the functions stored into global g's backing array by the package initialiser, in index order.
+func FuncTable(g *ssa.Global) []*ssa.Function {
+	init := g.Pkg.Func("init")
+	if init == nil || init.Blocks == nil {
+		return nil
+	}
+	var backing ssa.Value
+	Instrs(init, func(in ssa.Instruction) {
+		if st, ok := in.(*ssa.Store); ok && st.Addr == ssa.Value(g) {
+			switch y := st.Val.(type) {
+			case *ssa.Slice:
+				backing = y.X
+			default:
+				backing = st.Val
+			}
+		}
+	})
+	if backing == nil {
+		return nil
+	}
+	byIdx := map[int64]*ssa.Function{}
+	var max int64 = -1
+	Instrs(init, func(in ssa.Instruction) {
+		st, ok := in.(*ssa.Store)
+		if !ok {
+			return
+		}
+		ia, ok := st.Addr.(*ssa.IndexAddr)
+		if !ok || ia.X != backing {
+			return
+		}
+		k, ok := ConstInt(ia.Index)
+		if !ok {
+			return
+		}
+		if fn := funcValueTarget(st.Val); fn != nil {
+			byIdx[k] = fn
+			if k > max {
+				max = k
+			}
+		}
+	})
+	var out []*ssa.Function
+	for i := int64(0); i <= max; i++ {
+		if f := byIdx[i]; f != nil {
+			out = append(out, f)
+		}
+	}
+	return out
 }
